@@ -17,7 +17,9 @@ ASSUMPTIONS = [
     "c14_error_verbatim: Error.Data is empty or valid JSON (wire_data d = Some d'; otherwise json.Marshal of the "
     "*Error fails and no reply is sent: c14_error_verbatim_refuted_invalid_data) and Error.Message is valid UTF-8 "
     "(otherwise each bad byte arrives as U+FFFD: c14_error_verbatim_refuted_invalid_utf8); data arrives as "
-    "json.Marshal's compaction of it (JSON-equal; that the compaction preserves the JSON value is C13's obligation)",
+    "json.Marshal's compaction of it, proved JSON-equal in the sense of ErrsJson.json_content: the same significant "
+    "bytes outside strings and the same string characters, an ASCII byte / U+2028 / U+2029 being identified with its "
+    "\\uXXXX escape (c14_data_json_equal; finer than equality of JSON values, so it implies it)",
     "c14_code_preserved: exact domain code_dom - the error is not classified NoError by ErrorCode unless it is a "
     "top-level *Error (tasks.responses sends InternalError instead: c14_code_preserved_refuted_noerror_coder)",
     "c14_sentinels: no ErrCoder anywhere in the error tree (errors.As runs before errors.Is: "
